@@ -191,6 +191,8 @@ class Uploader:
                 link = await self.peer.dial(self.client_port, 'P', host=self.w.net.ip_of(self.client_name))
             except (ConnectionError, OSError):
                 return
+        if getattr(self, 'before_offer', None):
+            self.before_offer()
         link.send(PeerTransferRequest.Request(1, ticket, filename, filesize=len(data)))
         for _ in range(600):
             await asyncio.sleep(0.05)
